@@ -226,28 +226,29 @@ theorem restart_sim {it0 : It root} {k : Ref.RIt} (h : ItAt c it0 k) :
   exact ItAt.plain _ _ rfl rfl this rfl
 
 /-- The first epoch of a new loader. -/
-theorem first_sim : ItAt c (itReset root (newIt root) none) ⟨0, 0, false⟩ :=
+theorem first_sim : ItAt c (itReset root (newIt root root.rfresh) none) ⟨0, 0, false⟩ :=
   ItAt.plain _ _ rfl rfl (view_init c) rfl
 
 
 /-- The iterator that `__iter__` (re)starts is the one the reference starts. -/
 theorem startIt_sim (restart flag : Bool) {oit : Option (It root)} {cur : Option Ref.RIt}
-    {pd : Option (SD root)} {rpd : Option Ref.RTok} (reuse hd : Bool)
-    (hit : ORel (ItAt c) oit cur) (hpd : ORel (TokRel c) pd rpd) :
-    (startIt root restart pd flag (itOr oit)).err = none ∧
-    (startIt root restart pd flag (itOr oit)).pending = none ∧
-    (startIt root restart pd flag (itOr oit)).iterForSd = flag ∧
-    ItAt c (startIt root restart pd flag (itOr oit)).it
+    {pd : Option (SD root)} {rpd : Option Ref.RTok} (bs : Run root) (reuse hd : Bool)
+    (hit : ORel (ItAt c) oit cur) (hpd : ORel (TokRel c) pd rpd)
+    (hb : oit = none → (Node.Reach root bs ∨ bs = root.rfresh) ∧ (pd = none → bs = root.rfresh)) :
+    (startIt root restart pd flag (itOr bs oit)).err = none ∧
+    (startIt root restart pd flag (itOr bs oit)).pending = none ∧
+    (startIt root restart pd flag (itOr bs oit)).iterForSd = flag ∧
+    ItAt c (startIt root restart pd flag (itOr bs oit)).it
       (Ref.start epochs restart restart ⟨cur, rpd, reuse, hd⟩) := by
   cases pd with
   | some sd =>
     cases rpd with
     | none => exact absurd hpd (by simp [ORel])
     | some tk =>
-      have hr : Node.Reach root (itOr oit).r ∨
-          (itOr oit).r = root.rfresh := by
+      have hr : Node.Reach root (itOr bs oit).r ∨
+          (itOr bs oit).r = root.rfresh := by
         cases oit with
-        | none => exact Or.inr rfl
+        | none => exact (hb rfl).1
         | some it =>
           cases cur with
           | none => exact absurd hit (by simp [ORel])
@@ -261,7 +262,10 @@ theorem startIt_sim (restart flag : Bool) {oit : Option (It root)} {cur : Option
       | none =>
         cases cur with
         | some k => exact absurd hit (by simp [ORel])
-        | none => exact ⟨rfl, rfl, rfl, first_sim c⟩
+        | none =>
+          have hbs := (hb rfl).2 rfl
+          subst hbs
+          exact ⟨rfl, rfl, rfl, first_sim c⟩
       | some it =>
         cases cur with
         | none => exact absurd hit (by simp [ORel])
@@ -274,17 +278,21 @@ structure SimSt (s : State root) (t : Ref.RState) : Prop where
   flag : s.iterForSd = t.reuse
   handle : s.handle = t.handle
   it : ORel (ItAt c) s.it t.cur
+  /-- while no iterator exists the root is untouched, or a load is pending (the iterator created for a
+  `state_dict()` was dropped by that load) -/
+  base : s.it = none → (Node.Reach root s.base ∨ s.base = root.rfresh) ∧ (s.pending = none → s.base = root.rfresh)
 
 theorem iterCore_sim (restart : Bool) {s : State root} {t : Ref.RState} (h : SimSt c s t) :
     (iterCore root restart s).err = none ∧
     SimSt c ⟨some (iterCore root restart s).it, (iterCore root restart s).pending,
-        (iterCore root restart s).iterForSd, true⟩ (Ref.iter epochs restart restart t) := by
-  obtain ⟨it, pd, fl, hd⟩ := s
+        (iterCore root restart s).iterForSd, true, s.base⟩ (Ref.iter epochs restart restart t) := by
+  obtain ⟨it, pd, fl, hd, bs⟩ := s
   obtain ⟨cur, rpd, reuse, rhd⟩ := t
   have hp := h.pending
   have hf := h.flag
   have hi := h.it
-  simp only at hp hf hi
+  have hb := h.base
+  simp only at hp hf hi hb
   subst hf
   rw [iterCore_eq]
   cases it with
@@ -292,9 +300,9 @@ theorem iterCore_sim (restart : Bool) {s : State root} {t : Ref.RState} (h : Sim
     cases cur with
     | some k => exact absurd hi (by simp [ORel])
     | none =>
-      have hs := startIt_sim c restart fl fl rhd hi hp
+      have hs := startIt_sim c restart fl bs fl rhd hi hp hb
       simp only [Ref.iter]
-      refine ⟨hs.1, ?_, ?_, rfl, ?_⟩
+      refine ⟨hs.1, ?_, ?_, rfl, ?_, (fun h => nomatch h)⟩
       · simp only [hs.2.1, ORel]
       · simp only [hs.2.2.1]
       · exact hs.2.2.2
@@ -303,11 +311,11 @@ theorem iterCore_sim (restart : Bool) {s : State root} {t : Ref.RState} (h : Sim
     | none => exact absurd hi (by simp [ORel])
     | some k =>
       cases fl with
-      | true => exact ⟨rfl, hp, rfl, rfl, hi⟩
+      | true => exact ⟨rfl, hp, rfl, rfl, hi, (fun h => nomatch h)⟩
       | false =>
-        have hs := startIt_sim c restart false false rhd hi hp
+        have hs := startIt_sim c restart false bs false rhd hi hp hb
         simp only [Ref.iter]
-        refine ⟨hs.1, ?_, ?_, rfl, ?_⟩
+        refine ⟨hs.1, ?_, ?_, rfl, ?_, (fun h => nomatch h)⟩
         · simp only [hs.2.1, ORel]
         · simp only [hs.2.2.1]
         · exact hs.2.2.2
@@ -328,30 +336,31 @@ theorem stateDict_sim (restart : Bool) {s : State root} {t : Ref.RState} (h : Si
     ∃ sd, (stateDict root restart s).1 = Except.ok sd ∧
       TokRel c sd (Ref.stateDict epochs restart restart t).1 ∧
       SimSt c (stateDict root restart s).2 (Ref.stateDict epochs restart restart t).2 := by
-  obtain ⟨it, pd, fl, hd⟩ := s
+  obtain ⟨it, pd, fl, hd, bs⟩ := s
   obtain ⟨cur, rpd, reuse, rhd⟩ := t
   have hp := h.pending
   have hf := h.flag
   have hh := h.handle
   have hi := h.it
-  simp only at hp hf hh hi
+  have hb := h.base
+  simp only at hp hf hh hi hb
   cases it with
   | some i =>
     cases cur with
     | none => exact absurd hi (by simp [ORel])
     | some k =>
       have hg := itGet_sim c hi
-      exact ⟨_, rfl, hg.1, hp, hf, hh, hg.2⟩
+      exact ⟨_, rfl, hg.1, hp, hf, hh, hg.2, (fun h => nomatch h)⟩
   | none =>
     cases cur with
     | some k => exact absurd hi (by simp [ORel])
     | none =>
-      have hs := startIt_sim c restart fl reuse rhd hi hp
-      have he : (iterCore root restart ⟨none, pd, fl, hd⟩).err = none := hs.1
+      have hs := startIt_sim c restart fl bs reuse rhd hi hp hb
+      have he : (iterCore root restart ⟨none, pd, fl, hd, bs⟩).err = none := hs.1
       have hg := itGet_sim c hs.2.2.2
       simp only [stateDict, he]
-      refine ⟨_, rfl, hg.1, ?_, rfl, hh, hg.2⟩
-      show ORel (TokRel c) (startIt root restart pd fl (itOr none)).pending none
+      refine ⟨_, rfl, hg.1, ?_, rfl, hh, hg.2, (fun h => nomatch h)⟩
+      show ORel (TokRel c) (startIt root restart pd fl (itOr bs none)).pending none
       rw [hs.2.1]
       trivial
 
@@ -377,7 +386,7 @@ theorem ref_next_eq (t : Ref.RState) (k : Ref.RIt) (hh : t.handle = true) (hc : 
 
 theorem next_sim {s : State root} {t : Ref.RState} (h : SimSt c s t) :
     (next root s).1 = (Ref.next epochs t).1 ∧ SimSt c (next root s).2 (Ref.next epochs t).2 := by
-  obtain ⟨it, pd, fl, hd⟩ := s
+  obtain ⟨it, pd, fl, hd, bs⟩ := s
   obtain ⟨cur, rpd, reuse, rhd⟩ := t
   have hp := h.pending
   have hf := h.flag
@@ -400,9 +409,42 @@ theorem next_sim {s : State root} {t : Ref.RState} (h : SimSt c s t) :
         have hn := itNext_sim c hi
         rw [ref_next_eq ⟨some k, rpd, reuse, true⟩ k rfl rfl]
         simp only [next]
-        exact ⟨by rw [hn.1], hp, hf, rfl, hn.2⟩
+        exact ⟨by rw [hn.1], hp, hf, rfl, hn.2, (fun h => nomatch h)⟩
 
-theorem simSt_init : SimSt c (State.init root) Ref.RState.init := ⟨trivial, rfl, rfl, trivial⟩
+theorem load_sim {s : State root} {t : Ref.RState} (h : SimSt c s t) {a : SD root} {b : Ref.RTok}
+    (hab : TokRel c a b) : SimSt c (load root s a) (Ref.load t b) := by
+  obtain ⟨it, pd, fl, hd, bs⟩ := s
+  obtain ⟨cur, rpd, reuse, rhd⟩ := t
+  have hf := h.flag
+  have hh := h.handle
+  have hi := h.it
+  have hb := h.base
+  simp only at hf hh hi hb
+  subst hf hh
+  cases fl with
+  | false =>
+    refine ⟨hab, rfl, rfl, hi, ?_⟩
+    intro h0
+    exact ⟨(hb h0).1, (fun hc => nomatch hc)⟩
+  | true =>
+    cases it with
+    | none =>
+      cases cur with
+      | some k => exact absurd hi (by simp [ORel])
+      | none =>
+        refine ⟨hab, rfl, rfl, trivial, ?_⟩
+        intro h0
+        exact ⟨(hb h0).1, (fun hc => nomatch hc)⟩
+    | some i =>
+      cases cur with
+      | none => exact absurd hi (by simp [ORel])
+      | some k =>
+        refine ⟨hab, rfl, rfl, trivial, ?_⟩
+        intro _
+        exact ⟨Or.inl (itAt_reach c hi), (fun hc => nomatch hc)⟩
+
+theorem simSt_init : SimSt c (State.init root) Ref.RState.init :=
+  ⟨trivial, rfl, rfl, trivial, fun _ => ⟨Or.inr rfl, fun _ => rfl⟩⟩
 
 theorem step_sim (restart : Bool) {s : Sys root} {t : Ref.RSys}
     (ht : LRel (TokRel c) s.toks t.toks) (hs : SimSt c s.st t.st) (op : Op) :
@@ -437,8 +479,8 @@ theorem step_sim (restart : Bool) {s : Sys root} {t : Ref.RSys}
       | none => rw [h1, h2] at hg; exact absurd hg (by simp [ORel])
       | some b =>
         rw [h1, h2] at hg
-        exact ⟨rfl, ht, hg, rfl, hs.handle, hs.it⟩
-  | abandon => exact ⟨rfl, ht, hs.pending, hs.flag, rfl, hs.it⟩
+        exact ⟨rfl, ht, load_sim c hs hg⟩
+  | abandon => exact ⟨rfl, ht, hs.pending, hs.flag, rfl, hs.it, hs.base⟩
   | fresh => exact ⟨rfl, ht, simSt_init c⟩
 
 theorem obs_sim (restart : Bool) (ops : List Op) {s : Sys root} {t : Ref.RSys}
